@@ -4,17 +4,8 @@
 //! bv replay <ID> <FILE>
 //! bv worker <ID> ...           (internal)
 
-pub mod blots;
-pub mod engine;
-pub mod gen_;
-pub mod model;
-pub mod props;
-
-#[allow(dead_code, unused_imports, clippy::all)]
-#[path = "/repo/blots-wasm/src/lib.rs"]
-pub mod wasm_lib;
-
-use engine::{Ctx, Mode, Tier};
+use bv::engine::{self, Ctx, Mode, Tier};
+use bv::props;
 
 /// Global allocator wrapper: when the system allocator fails (RLIMIT_AS reached) a marker file
 /// is written before the process aborts, so the supervisor counts the case as a resource
